@@ -888,13 +888,69 @@ func safeCheck(m *bgp.BGPMessage, st *verifkit.Stats) (f *verifkit.Failure) {
 	return f
 }
 
+// codecIssueProbe searches a deterministic recipe space for a shape of the codec issue key that
+// fails the C04 oracles.  For a key that is still open (verifgen.KnownCodecIssues) the generators
+// are unmasked for the duration of the search, which must then fail with sig "codec-<key>"; for a
+// repaired key (verifgen.FixedCodecIssues) the shape is generated unconditionally and the same
+// search must pass (it fails with the same sig on a tree without the repair).
 func codecIssueProbe(key string) func(st *verifkit.Stats) *verifkit.Failure {
-	return func(st *verifkit.Stats) *verifkit.Failure {
-		if !verifgen.KnownCodecIssues[key] {
+	// subTLVTypesKept (srv6-bsid-subtlv only): "parses back to an equal value" for the TUNNEL_ENCAP
+	// attribute of m includes the Go types of its sub-TLVs; the JSON form of an SRv6 binding SID
+	// sub-TLV equals that of the SR binding SID sub-TLV it is parsed back as, so checkMessage cannot
+	// tell them apart.
+	subTLVTypesKept := func(m *bgp.BGPMessage) (f *verifkit.Failure) {
+		defer func() {
+			if r := recover(); r != nil {
+				f = verifkit.Failf("panic", "panic: %v", r)
+			}
+		}()
+		u, ok := m.Body.(*bgp.BGPUpdate)
+		if !ok {
 			return nil
 		}
-		verifgen.KnownCodecIssues[key] = false
-		defer func() { verifgen.KnownCodecIssues[key] = true }()
+		types := func(a *bgp.PathAttributeTunnelEncap) string {
+			var b strings.Builder
+			for _, tlv := range a.Value {
+				b.WriteString("[")
+				for _, st := range tlv.Value {
+					fmt.Fprintf(&b, " %T", st)
+					if v, ok := st.(*bgp.TunnelEncapSubTLVSRv6BSID); ok && v.EPBAS != nil {
+						b.WriteString("+EPBAS")
+					}
+				}
+				b.WriteString(" ]")
+			}
+			return b.String()
+		}
+		for _, a := range u.PathAttributes {
+			te, ok := a.(*bgp.PathAttributeTunnelEncap)
+			if !ok {
+				continue
+			}
+			ab, err := te.Serialize()
+			if err != nil {
+				return verifkit.Failf("attr-serialize", "attribute %s: %v", a.GetType(), err)
+			}
+			te2 := &bgp.PathAttributeTunnelEncap{}
+			if err := te2.DecodeFromBytes(ab); err != nil {
+				return verifkit.Failf("attr-decode", "attribute %s does not decode: %v", a.GetType(), err)
+			}
+			if t1, t2 := types(te), types(te2); t1 != t2 {
+				return verifkit.Failf("not-equal", "tunnel encapsulation sub-TLV types change in a round trip (%x):\n constructed %s\n parsed      %s", ab, t1, t2)
+			}
+		}
+		return nil
+	}
+	return func(st *verifkit.Stats) *verifkit.Failure {
+		note, fixed := verifgen.FixedCodecIssues[key]
+		if !fixed {
+			if !verifgen.KnownCodecIssues[key] {
+				return nil
+			}
+			note = verifgen.KnownCodecIssueNotes[key]
+			verifgen.KnownCodecIssues[key] = false
+			defer func() { verifgen.KnownCodecIssues[key] = true }()
+		}
 		scratch := verifkit.Scratch("C04")
 		rnd := lcg(11)
 		for l := 0; l <= 64; l++ {
@@ -903,10 +959,18 @@ func codecIssueProbe(key string) func(st *verifkit.Stats) *verifkit.Failure {
 				for j := range r {
 					r[j] = rnd.next()
 				}
+				// the search is confined to the generator kind the shape lives in, so that on a tree
+				// that lacks several repairs a probe reports its own defect as far as possible
 				var msgs []*bgp.BGPMessage
 				switch {
 				case strings.HasPrefix(key, "ec-"):
 					for k := 0; k < verifgen.NumExtCommKinds; k++ {
+						if name := verifgen.ExtCommKindName(k); (key == "ec-2octet-as-subtype4-transitive" && name != "two-octet-as") ||
+							(strings.HasPrefix(key, "ec-multicast-flags-") && name != "multicast-flags") ||
+							(key == "ec-l2attr-primary-and-backup" && name != "l2-attributes") ||
+							(strings.HasPrefix(key, "ec-unknown-") && name != "unknown") {
+							continue
+						}
 						e := verifgen.ExtCommunityOfKind(verifgen.NewSrc(r), k)
 						msgs = append(msgs, wrapAttr(bgp.NewPathAttributeExtendedCommunities([]bgp.ExtendedCommunityInterface{e})))
 					}
@@ -917,20 +981,32 @@ func codecIssueProbe(key string) func(st *verifkit.Stats) *verifkit.Failure {
 					}
 				case key == "rd-unknown-type" || key == "evpn-ipmsi" || key == "flowspec-len-ge-240" || key == "ls-prefix-len0":
 					for _, f := range verifgen.ExoticFamilies {
+						fs := f.Safi() == bgp.SAFI_FLOW_SPEC_UNICAST || f.Safi() == bgp.SAFI_FLOW_SPEC_VPN
+						if (key == "evpn-ipmsi" && f != bgp.RF_EVPN) || (key == "flowspec-len-ge-240" && !fs) || (key == "ls-prefix-len0" && f != bgp.RF_LS) {
+							continue
+						}
 						msgs = append(msgs, wrapNLRI(f, verifgen.ExoticNLRI(verifgen.NewSrc(r), f)))
 					}
 				default:
 					for k := 0; k < verifgen.NumExoticAttrKinds; k++ {
+						if (key == "aigp-empty-tlv" && k != verifgen.ExoticAttrAigp) || (strings.HasPrefix(key, "ls-ctor-") && k != verifgen.ExoticAttrLs) ||
+							((strings.HasPrefix(key, "tunnel-encap-") || key == "srbsid-nil-bsid" || key == "srv6-bsid-subtlv") && k != verifgen.ExoticAttrTunnelEncap) {
+							continue
+						}
 						msgs = append(msgs, wrapAttr(verifgen.ExoticAttr(verifgen.NewSrc(r), k)))
 					}
 				}
 				for _, m := range msgs {
-					if f := safeCheck(m, scratch); f != nil {
+					f := safeCheck(m, scratch)
+					if f == nil && key == "srv6-bsid-subtlv" {
+						f = subTLVTypesKept(m)
+					}
+					if f != nil {
 						msg := f.Msg
 						if len(msg) > 600 {
 							msg = msg[:600] + "..."
 						}
-						return verifkit.Failf("codec-"+key, "%s: %s", verifgen.KnownCodecIssueNotes[key], msg)
+						return verifkit.Failf("codec-"+key, "%s: %s", note, msg)
 					}
 				}
 			}
@@ -941,6 +1017,9 @@ func codecIssueProbe(key string) func(st *verifkit.Stats) *verifkit.Failure {
 
 func init() {
 	for key := range verifgen.KnownCodecIssues {
+		verifkit.RegisterProbe("C04", "codec-"+key, codecIssueProbe(key))
+	}
+	for key := range verifgen.FixedCodecIssues {
 		verifkit.RegisterProbe("C04", "codec-"+key, codecIssueProbe(key))
 	}
 }
